@@ -2,8 +2,11 @@ import gfapy
 import re
 
 def unsafe_decode(string):
-  return [ gfapy.OrientedLine(str(l[0:-1]), str(l[-1]))
-           for l in string.split(" ")]
+  elems = string.split(" ")
+  if "" in elems:
+    raise gfapy.FormatError(
+      "{} contains an empty oriented identifier".format(repr(string)))
+  return [ gfapy.OrientedLine(str(l[0:-1]), str(l[-1])) for l in elems ]
 
 def decode(string):
   validate_encoded(string)
